@@ -19,7 +19,7 @@ pub const ASSUMPTIONS: &[&str] = &[
 ];
 
 /// the check itself, reusable by the fuzz target: Ok(Some(nontrivial)) if the stream was in the domain
-pub fn fixpoint<T: Spec>(spec: &SpecTable, b: &[u8]) -> Result<Option<bool>, String> {
+pub fn fixpoint<T: Spec>(spec: &SpecTable, b: &[u8], buffered: &[u64]) -> Result<Option<bool>, String> {
     let (max_size, _) = safe_max_size(b, MaxSize::Untouched);
     let cfg = ReadCfg { max_size, ..ReadCfg::default() };
     let o1 = read_all::<T>(b, &cfg);
@@ -63,6 +63,31 @@ pub fn fixpoint<T: Spec>(spec: &SpecTable, b: &[u8]) -> Result<Option<bool>, Str
             hex(&out[..out.len().min(240)])
         ));
     }
+    // the tags a reader emits may also be whole buffered masters: handing those Full items back to the writer must give a stream with the
+    // same meaning as well
+    if !buffered.is_empty() {
+        let o1b = read_all::<T>(b, &ReadCfg { buffered: buffered.to_vec(), ..cfg.clone() });
+        if first_err(&o1b).is_some() || matches!(o1b.last(), Some(Obs::Panic(_)) | Some(Obs::Runaway(_))) {
+            return Err(format!("the stream reads cleanly without buffering but not with masters {:x?} buffered: {}", buffered, render_obs(&o1b)));
+        }
+        let t1b = items_of(&o1b);
+        let ops: Vec<WOp> = t1b.iter().map(|f| WOp::Write(f.clone(), WOpt::Default)).collect();
+        let out_b = write_ops::<T>(&ops).map_err(|(k, e)| {
+            format!("the writer rejects item #{} {} of a sequence the strict reader emitted with masters {:x?} buffered: {:?}\n  read: {}", k, ops.get(k).map(|o| o.short()).unwrap_or("flush".into()), buffered, e, render_flats(&t1b))
+        })?;
+        let o2b = read_all::<T>(&out_b, &ReadCfg::strict());
+        if let Some(e) = first_err(&o2b) {
+            return Err(format!("re-reading the stream re-written from buffered (Full) items fails with {}\n  first read: {}\n  re-written bytes: {}", e.short(), render_flats(&t1b), hex(&out_b[..out_b.len().min(240)])));
+        }
+        let t2b = items_of(&o2b);
+        if t2b != t1 {
+            let k = t1.iter().zip(t2b.iter()).take_while(|(a, b)| a == b).count();
+            return Err(format!(
+                "second reading of the stream re-written from buffered (Full) items differs at item {}: first {:?}, second {:?} ({} vs {} items)\n  first read (masters {:x?} buffered): {}\n  re-written bytes: {}",
+                k, t1.get(k), t2b.get(k), t1.len(), t2b.len(), buffered, render_flats(&t1b), hex(&out_b[..out_b.len().min(240)])
+            ));
+        }
+    }
     Ok(Some(out != b))
 }
 
@@ -72,8 +97,17 @@ fn stage(i: &Input, c: &mut Case) -> Result<(), String> {
     // element sizes at the vint width boundaries (126..129, 16382..16384) must survive re-writing too
     mo.tree.pay = crate::gen::PayOpts { big_left: 1, huge: false, max_small: 24 };
     let m = gen_mixed(&mut t, mo);
-    c.key(&m.bytes);
-    let r = with_spec!(m.spec, T => fixpoint::<T>(m.spec.table(), &m.bytes));
+    // a third of the cases: some masters are also read buffered and handed back to the writer as Full items
+    let mut buffered: Vec<u64> = Vec::new();
+    if t.chance(1, 3) {
+        for id in m.spec.table().masters() {
+            if t.chance(1, 2) {
+                buffered.push(id);
+            }
+        }
+    }
+    c.key(&(&m.bytes, &buffered));
+    let r = with_spec!(m.spec, T => fixpoint::<T>(m.spec.table(), &m.bytes, &buffered));
     match r {
         Ok(None) => {
             c.skipped = true;
@@ -100,6 +134,7 @@ fn stage(i: &Input, c: &mut Case) -> Result<(), String> {
                 });
             }
             c.label_if(nt, "not_canonical");
+            c.label_if(!buffered.is_empty(), "full_items_written_back");
             c.label_if(crate::gen::any_node(&m.forest, &|n| matches!(crate::gen::content_len(n), 16382..=16384)), "payload_16K_boundary");
             c.label_if(crate::gen::any_node(&m.forest, &|n| matches!(crate::gen::content_len(n), 126..=129)), "payload_127_boundary");
             c.sample_with(|| describe_mixed(&m));
@@ -114,6 +149,7 @@ pub const STAGES: &[Stage] = &[Stage { name: "fixpoint", f: stage }];
 pub fn run(rc: &mut RunCtx) {
     rc.run_pt(STAGES[0], rc.pick(800_000, 4_000_000), (96, 500));
     rc.require_label("fixpoint", "mutated_accepted", 30_000);
+    rc.require_label("fixpoint", "full_items_written_back", 100_000);
     rc.require_label("fixpoint", "input_noncanonical", 100_000);
     rc.require_label("fixpoint", "payload_16K_boundary", 20_000);
     rc.require_label("fixpoint", "payload_127_boundary", 100_000);
